@@ -561,7 +561,72 @@ def namesOKb : Bool :=
   decide names.Nodup && names.contains "name" && names.contains "type" && names.contains "compose" &&
   names.contains "variable"
 
+/-- one iteration of `for type_ in composed` for an entry that does not raise -/
+def presStep (old : Slots) (acc : Slots) (t : V) : Slots :=
+  match t with
+  | .str s =>
+    match getSlot acc (key names s), getSlot old (key names s) with
+    | none, some x => setSlot acc (key names s) (some x)
+    | _, _ => acc
+  | _ => acc
+
+/-- the loop `for type_ in composed` when every entry is a string (no `TypeError`) -/
+def preservePure (old : Slots) (acc : Slots) (c : List V) : Slots :=
+  c.foldl (presStep names old) acc
+
+/-- `_update_context` (patched condition) on well-formed dictionaries, as a pure function:
+first argument the old `context.variable`, second the new variable context -/
+def UP (p b : Slots) : Slots :=
+  if hist names p = [] then b
+  else
+    let c := hist names p ++ hist names b
+    preservePure names (setSlot p (kCompose names) (some (.seq false c)))
+      (setSlot b (kCompose names) (some (.seq false c))) c
+
+
+/-- the dictionary `context.variable` the chain starts from: the value's own, or `{}` -/
+def preDict (names : List String) (cv : Option V) : Slots :=
+  match cv with
+  | some (.dict p) => p
+  | _ => emptyD names.length
+
+
 end spec
+
+/-- the data of a chain: the getters applied in order -/
+def chainData {D : Type} (vars : List (Variable D)) (d : D) : D := vars.foldl (fun x v => v.getter x) d
+
+
+/-- a plain typed variable `Variable(name, f, type=ty, **kw)` -/
+structure Leaf (D : Type) where
+  name : V
+  f : D → D
+  ty : String
+  kw : Slots
+
+/-- `{"name": name, **kw}`: what the variable stores under its type -/
+def Leaf.attrs {D : Type} (names : List String) (l : Leaf D) : Slots :=
+  dictUpdate (setSlot (emptyD names.length) (kName names) (some l.name)) l.kw
+
+/-- its `var_context` -/
+def Leaf.ctx {D : Type} (names : List String) (l : Leaf D) : Slots :=
+  setSlot (setSlot (l.attrs names) (key names l.ty) (some (.dict (l.attrs names)))) (kType names) (some (.str l.ty))
+
+def Leaf.var {D : Type} (names : List String) (l : Leaf D) : Variable D := ⟨l.f, l.ctx names⟩
+
+
+/-- `LeavesOK` (hypothesis of `types_persist`, `compose_order`): pairwise distinct non-empty types that are keys
+of the alphabet and not `name`/`type`/`compose`; keyword arguments over the alphabet without `name`, `type`,
+`compose`; no attribute named like a type of the chain -/
+def leavesOKb {D : Type} (names : List String) (leaves : List (Leaf D)) : Bool :=
+  leaves.all (fun l =>
+    l.ty != "" && names.contains l.ty && l.ty != "name" && l.ty != "type" && l.ty != "compose" &&
+    l.kw.length == names.length &&
+    (getSlot l.kw (kName names)).isNone && (getSlot l.kw (kType names)).isNone &&
+    (getSlot l.kw (kCompose names)).isNone &&
+    leaves.all (fun l' => (getSlot l.kw (key names l'.ty)).isNone)) &&
+  decide (leaves.map Leaf.ty).Nodup
+
 
 /-! ## variable expressions (what the harness builds on both sides) -/
 
@@ -647,6 +712,18 @@ def argsTypes {D : Type} (names : List String) : List (Expr D) → List V
   | e :: r => exprTypes names e ++ argsTypes names r
 end
 
+mutual
+/-- every type that occurs anywhere in an expression (those of the arguments of a `Combine` included) -/
+def exprAllTypes {D : Type} (names : List String) : Expr D → List V
+  | .var _ _ ty _ => typeOf ty
+  | .compose args _ => argsAllTypes names args
+  | .combine args kw => typeOf ((getSlot kw (kType names)).getD (.str "")) ++ argsAllTypes names args
+  | .other => []
+def argsAllTypes {D : Type} (names : List String) : List (Expr D) → List V
+  | [] => []
+  | e :: r => exprAllTypes names e ++ argsAllTypes names r
+end
+
 section exprOK
 variable (names : List String) (T : List V)
 
@@ -701,10 +778,15 @@ def namesOK2b (names : List String) : Bool :=
 /-- the syntactic hypothesis of `compose_eq_sequence_expr` for a chain of expressions `es` applied to a value
 whose `context.variable` is `cv` -/
 def chainOKb {D : Type} (names : List String) (cv : Option V) (es : List (Expr D)) : Bool :=
-  let T := preHist names cv ++ argsTypes names es
+  let T := preHist names cv ++ argsAllTypes names es
   namesOK2b names && !es.isEmpty && argsOKb names T es && typesOKb names T &&
   (match cv with
    | some (.dict p) => varWFb names p && noClashB names T p
    | _ => true)
+
+/-- a constructor expression of a plain variable with a string name and type, as a `Leaf` -/
+def Expr.asLeaf {D : Type} : Expr D → Option (Leaf D)
+  | .var name (.fn f) (.str ty) kw => some ⟨name, f, ty, kw⟩
+  | _ => none
 
 end Lena.C14
